@@ -125,3 +125,21 @@ def synth_eam_events(trace, tab):
         elif code == 5: v = eps[fn[1]].electronDensityFunction[eps[fn[2]].species](x)
         evs.append(('eval', tuple(fn), kind, x, v))
     return evs
+
+def workbook_text(data):
+    """a written .xlsx rendered sheet by sheet: '#sheet NAME', then tab separated rows (numbers as repr of the float)"""
+    from openpyxl import load_workbook
+    wb = load_workbook(io.BytesIO(data))
+    out = []
+    for ws in wb.worksheets:
+        out.append('#sheet %s\n' % ws.title)
+        for row in ws.iter_rows(values_only=True):
+            out.append('\t'.join(v if isinstance(v, str) else '{}'.format(float(v)) for v in row) + '\n')
+    return ''.join(out)
+
+class RecBytesFile(io.BytesIO):
+    def __init__(self, rec):
+        io.BytesIO.__init__(self); self.rec = rec; layout.LAST['file'] = self
+    def write(self, b):
+        self.rec.events.append(('write', len(b)))
+        return io.BytesIO.write(self, b)
